@@ -2389,7 +2389,13 @@ def emit_block(unit, loc, dlines, tmpl_where):
         # the driver has found that this block's text does not compile on this tree (a local it returns or renames is gone):
         # it is left out so that the rest of the unit is still decided; the property it belongs to is answered `undecided`
         pm_ = next((r_.strip()[5:].strip() for r_ in dlines if r_.strip().split()[:1] == ['props']), '')
-        unit.skipped_blocks.append({'block': nm_, 'props': [x for x in re.split(r'[,\s]+', pm_) if x]})
+        ps_ = [x for x in re.split(r'[,\s]+', pm_) if x]
+        for r_ in dlines:
+            for lm_ in re.finditer(r'//#\s*([A-Z0-9,]+):', r_):
+                for q_ in lm_.group(1).split(','):
+                    if q_ and q_ not in ps_:
+                        ps_.append(q_)
+        unit.skipped_blocks.append({'block': nm_, 'props': ps_})
         return
     a_txt, b_txt = mm.group(2), mm.group(4)
     end_exclusive = mm.group(3) == '<'   # `a` ..< `b`: up to, not including, the statement that starts with b
